@@ -35,7 +35,8 @@ inductive MVal
   | int (i : Int)
   | f32 (bits : UInt32)
   | f64 (bits : UInt64)
-  | str (s : String)
+  /-- a Python `str`, identified with its UTF-8 encoding (the bytes msgpack stores) -/
+  | str (utf8 : Bytes)
   | bin (b : Bytes)
   /-- `isList = true`: a Python `list`; `false`: a `tuple`. The wire has one array type. -/
   | arr (isList : Bool) (l : List MVal)
@@ -103,7 +104,7 @@ def pyOr (v d : MVal) : MVal := if v.falsy then d else v
 
 /-- the `name` setter of `Promolecule`: `None` becomes `"unknown"`. -/
 def pyName : MVal → MVal
-  | .nil => .str "unknown"
+  | .nil => .str [117, 110, 107, 110, 111, 119, 110]   -- "unknown"
   | v => v
 
 /-! ### float32 arrays as big-endian byte strings (`astype(">f4").tobytes()` / `frombuffer(dtype=">f4")`) -/
